@@ -13,9 +13,11 @@ Exploration (bounded, exhaustive, nothing sampled):
   divide, on the same register files, all operand pairs (aliased ones included), scalars of S,
   array-like right operands, integer and fractional powers.
 * kind ``bcast``: power-space broadcasting ``p o b`` / ``b o p`` / ``p o= b``.
+* kind ``range``: lincomb over all 27 triples with scalars and entries that are powers of two
+  near the ends of the exponent range; judged only where a*x1, b*x2 and their sum are finite.
 * kind ``hist`` (history space): breadth-first search over sequences of in-place operations
-  on the register file, depth 2 (thorough: 3), states canonicalised by register contents; the
-  reference model is stepped alongside.
+  on the register file, depth 2 (thorough: 3 on two spaces), states canonicalised by register
+  contents; the reference model is stepped alongside.
 
 Oracle: ``mc.ref.arith`` (NumPy on flat copies in a wide dtype, cast to the space dtype); exact
 equality on the dyadic alphabets; operands that are not the output must be byte-identical
@@ -378,7 +380,10 @@ class Ctx(object):
             self.first[key] = '%s phase=%d mode=%s: %s' % (self.head, self.phase, self.mode,
                                                            detail)
 
-    def diff_detail(self, got, exp, tol, operands):
+    def diff_detail(self, got, exp, tol, operands, mask=None):
+        if mask is not None and got.shape == exp.shape:
+            # entries outside the mask are not judged: make them agree
+            got = np.where(mask, got, exp)
         t = R.first_diff(got, exp, tol)
         if t is None:
             t = 0
@@ -389,9 +394,12 @@ class Ctx(object):
                 s += ' %s=%r' % (name, np.asarray(arr).ravel()[t].item())
         return s
 
-    def equal(self, got, exp, tol):
+    def equal(self, got, exp, tol, mask=None):
         if got.shape != exp.shape:
             return False
+        if mask is not None:
+            got, exp = got[mask], exp[mask]
+            tol = None if tol is None else tol[mask]
         if tol is None:
             return bool(np.array_equal(got, exp))
         with np.errstate(invalid='ignore'):
@@ -403,7 +411,7 @@ class Ctx(object):
         return ok
 
     def check(self, fam, label, thunk, exp, mut=None, tol=None, ret_is_out=True,
-              operands=(), fresh=False, sig=None, arrays=(), where=''):
+              operands=(), fresh=False, sig=None, arrays=(), where='', mask=None):
         """Execute ``thunk`` (one call into odl) and compare with the model.
 
         mut is None : the call returns a NEW element whose entries must equal ``exp``.
@@ -448,9 +456,9 @@ class Ctx(object):
                           '%s returned %s, not the output element' % (label, type(ret).__name__))
                 ok = False
             got = self.regs[mut].get()
-            if not self.equal(got, exp, tol):
+            if not self.equal(got, exp, tol, mask):
                 self.viol(fam, 'result_differs' + where, '%s: %s' % (
-                    label, self.diff_detail(got, exp, tol, operands)))
+                    label, self.diff_detail(got, exp, tol, operands, mask)))
                 ok = False
             if self.regs[mut].gaps and not self.regs[mut].gaps_same():
                 self.viol(fam, 'memory_outside_view_written',
@@ -523,6 +531,67 @@ def run_lincomb(cfg):
                                          exp, mut=k, tol=tol,
                                          operands=(('x1', C[i]), ('x2', C[j])),
                                          sig='%s:%s' % (al, sab), where='[%s]' % al)
+    return cx.result()
+
+
+# ------------------------------------------------------------------------------------------
+# kind: range  (lincomb with scalars and entries of extreme but finite magnitude)
+
+def run_range(cfg):
+    """Scalars and entries are powers of two near the ends of the exponent range.  An entry is
+    judged only where a*x1, b*x2 and their sum are all finite in the reference, i.e. where the
+    documented expression ``a * x1 + b * x2`` neither overflows nor meets inf - inf; there the
+    products are exact and the result must agree within 8 eps x (|a x1| + |b x2|)."""
+    cx = Ctx(cfg)
+    sp, E, regs, info = cx.space, cx.E, cx.regs, cx.info
+    dt = info.dtype
+    W = R.wide(dt)
+    e = 600 if np.finfo(dt).maxexp > 200 else 60
+    big, tiny = 2.0 ** e, 2.0 ** -e
+    H = 2.0 ** (e * 5 // 6)
+    tab = np.array([H, 1.0, 1.0 / H, 0.0, -H])
+    S = [1, tiny, big, -big]
+    if info.kind == 'c':
+        S.append(1j * tiny)
+    idx = R.triple_index(info.n, 0, 3)
+    C = []
+    for ix in idx:
+        v = tab[ix]
+        if info.kind == 'c':
+            v = v + 1j * tab[(2 * ix + 3) % 5]
+        C.append(np.asarray(v).astype(dt))
+    cx.C = C
+    for r, c in zip(regs, C):
+        r.set(c)
+    cx.snaps = [r.bytes() for r in regs]
+    cx.phase, cx.mode = 0, 'X'
+    Cw = [c.astype(W) for c in C]
+    for a in S:
+        for b in S:
+            sab = '%s,%s' % ('1' if a == 1 else 'tiny' if abs(a) < 1 else 'huge',
+                             '1' if b == 1 else 'tiny' if abs(b) < 1 else 'huge')
+            for i in range(3):
+                for j in range(3):
+                    with np.errstate(all='ignore'):
+                        p1, p2 = a * Cw[i], b * Cw[j]
+                        ew = p1 + p2
+                        exp = ew.astype(dt)
+                        mask = np.isfinite(p1) & np.isfinite(p2) & np.isfinite(exp)
+                        tol = TOL_ULPS * cx.eps * (np.abs(np.where(mask, p1, 0)) +
+                                                   np.abs(np.where(mask, p2, 0)))
+                        # results in the subnormal range are absolute-error territory
+                        tol = tol + float(np.finfo(dt).tiny)
+                    if not mask.any():
+                        continue
+                    for k in range(3):
+                        al = alias_name(i, j, k)
+                        with np.errstate(all='ignore'):
+                            cx.check('lincomb_extreme_scalars',
+                                     'space.lincomb(%r, r%d, %r, r%d, out=r%d)' % (a, i, b, j, k),
+                                     lambda: sp.lincomb(a, E[i], b, E[j], out=E[k]), exp, mut=k,
+                                     tol=tol, mask=mask,
+                                     operands=(('x1', C[i]), ('x2', C[j])),
+                                     sig='%s:%s' % (al, sab))
     return cx.result()
 
 
@@ -1207,6 +1276,21 @@ def configs(tier):
                 cfgs.append({'kind': 'bcast', 'space': spec, 'lay': ['C', 'C', 'C'],
                              'blay': bl, 'mode': mode, 'tier': tier})
 
+    # ---- extreme (finite) magnitudes
+    rsp = [(RN(3), ['C', 'C', 'C']), (RN(100), ['C', 'C', 'C']), (RN(50000), ['C', 'C', 'C']),
+           (RN(50000), ['C', 'C', 'S0']), (RN(100, 'float32'), ['C', 'C', 'C']),
+           (RN(101, 'complex128'), ['C', 'C', 'C']), (['U', [10, 10], 'float64'], ['F', 'C', 'C']),
+           (['P', RN(120), RN(3)], ['C', 'C', 'C'])]
+    if thorough:
+        rsp += [(RN(99), ['C', 'C', 'C']), (RN(49999), ['C', 'C', 'C']),
+                (RN(50000, 'complex128'), ['C', 'C', 'C']),
+                (RN(50000, 'float32'), ['S0', 'C', 'C']),
+                (RN(100, 'complex64'), ['C', 'S0', 'C']),
+                (['T', [250, 200], 'float64'], ['F', 'F', 'F']),
+                (['T', [10, 10], 'float64'], ['C', 'F', 'S1'])]
+    for spec, lay in rsp:
+        cfgs.append({'kind': 'range', 'space': spec, 'lay': lay, 'tier': tier})
+
     # ---- histories
     hsp = [(RN(3), ['C', 'C', 'C']), (RN(100), ['C', 'C', 'C']), (RN(100), ['C', 'S0', 'C']),
            (RN(101, 'complex128'), ['C', 'C', 'C']), (RN(100, 'float32'), ['S0', 'C', 'C']),
@@ -1230,7 +1314,8 @@ def configs(tier):
     return cfgs
 
 
-RUNNERS = {'lincomb': run_lincomb, 'arith': run_arith, 'bcast': run_bcast, 'hist': run_hist}
+RUNNERS = {'lincomb': run_lincomb, 'arith': run_arith, 'bcast': run_bcast, 'hist': run_hist,
+           'range': run_range}
 
 
 def run(cfg):
@@ -1265,40 +1350,70 @@ def meta(tier):
                 'triples x ALL (a,b) in S^2 x {out keeps its contents, out prefilled with '
                 'nan/huge when it is not an operand} are executed; "for all element values" by '
                 'entry-wise independence: the registers hold a Latin-square tiling of value '
-                'indices so that every pair (sizes>=25; thorough: every triple) of alphabet '
-                'values meets in every call, smaller sizes run ceil(25/size) phases; every '
-                'execution is compared exactly (8 eps x magnitude for the non-dyadic scalars '
-                'and fractional powers) with mc/ref/arith.py; hist = BFS over in-place '
-                'operation sequences, deduplicated by register contents. distinct = distinct '
-                '(space kind, dtype kind, size regime, operation, aliasing pattern, scalar '
-                'classes, outcome) + executed-line signature of _lincomb_impl, '
-                '_blas_is_applicable, __ipow__, _broadcast_arithmetic_impl',
+                'indices so that every pair of alphabet values (thorough, sizes 25..124, <= 1 '
+                'layout deviation: every triple incl. the previous content of out) meets in '
+                'every call; sizes < 25 run ceil(25/size) phases; every execution is compared '
+                'exactly (8 eps x magnitude for the non-dyadic scalars and fractional powers) '
+                'with mc/ref/arith.py; hist = BFS over in-place operation sequences, '
+                'deduplicated by register contents. distinct = distinct (space kind, dtype '
+                'kind, size regime, operation, aliasing pattern, scalar classes, outcome) + '
+                'executed-line signature of _lincomb_impl, _blas_is_applicable, __ipow__, '
+                '_broadcast_arithmetic_impl',
         'bounds': {
-            'sizes_1d': ONE_D, 'shapes_2d': TWO_D, 'shapes_3d': THREE_D_T if th else THREE_D,
+            'sizes_1d': ONE_D if th else [n for n in ONE_D if n != 50001],
+            'shapes_2d': TWO_D, 'shapes_3d': THREE_D_T if th else THREE_D,
             'dtypes': DT_T if th else DT_Q,
             'layouts': {'1d': layouts_for(1, tier), '2d': layouts_for(2, tier),
-                        '3d': layouts_for(3, tier)},
-            'layout_deviations': 'full product' if th else '<= 2 registers not C',
+                        '3d': layouts_for(3, tier),
+                        'legend': 'C, F contiguous; S0/S1 every second entry along the first/'
+                                  'last axis of a larger array; R reversed first axis; P first '
+                                  'two axes swapped'},
+            'layout_triples(lincomb)': (
+                'all uniform triples (L,L,L) plus: full product for sizes 25..9999 with the '
+                'four main dtypes (other dtypes <= 2 deviations from C); >= 10000 entries: <= 1 '
+                'deviation (float64 1-d/2-d: <= 2); sizes 3: <= 1; size 1: uniform only'
+                if th else
+                'all uniform triples (L,L,L) plus <= 2 registers deviating from C for sizes '
+                '25..9999, <= 1 for size 3 and for >= 10000 entries, uniform only for size 1'),
+            'layout_triples(arith)': 'uniform triples + <= %d deviation(s); size < 25 and '
+                                     '>= 10000 entries: uniform + one single deviation'
+                                     % (2 if th else 1),
             'V': R.V_FLOAT, 'V_int': R.V_INT, 'V_uint': R.V_UINT, 'D(divisors)': R.D_FLOAT,
             'S_real': [str(s) for s in scalars('f', tier)],
             'S_complex': [str(s) for s in scalars('c', tier)],
-            'S_int': scalars('i', tier),
-            'powers': 'n in -2..4, 2.0, p in {0.5,-1.5,2.5}',
+            'S_int': scalars('i', tier), 'S_uint': scalars('u', tier),
+            'S(>=10000 entries)': {'real': [str(s) for s in scalars('f', tier, True)],
+                                   'complex': [str(s) for s in scalars('c', tier, True)]},
+            'powers': 'n in -2..4 (integer spaces: 0..4 capped by the dtype range), 2.0, '
+                      'p in {0.5,-1.5,2.5} on tensor/discretized spaces',
             'discretized': DISCR_T if th else DISCR_Q,
             'product_spaces': PSPACES_T if th else PSPACES_Q,
-            'history_depth': 3 if th else 2,
+            'extreme_magnitudes(range kind)': 'scalars {1, 2^-e, 2^e, -2^e (, i 2^-e)}, entries '
+                                              '{2^(5e/6), 1, 2^-(5e/6), 0, -2^(5e/6)}, e = 600 '
+                                              '(double) / 60 (single)',
+            'history': 'alphabet of %d in-place operations (float), depth 2%s' % (
+                hist_alphabet_size('f'),
+                '; depth 3 on rn(100)[C,S0,C] and cn(101)' if th else ''),
         },
         'assumptions': [
             'aliasing = identity of element objects (property anchor); distinct elements over '
-            'overlapping memory, a product element used as output whose parts are one object, '
+            'overlapping memory, a product element used as OUTPUT whose parts are one object, '
             'and an in-place broadcast operand that is a part of the target are not enumerated',
             'no NaN/Inf in operands; NaN/huge only in an out register that is not an operand, '
             'and in the target of set_zero()',
             'integer spaces: only + - * and non-negative integer powers with integer scalars '
             'are judged; "/" on integer spaces counted as unspecified; unsigned: no subtraction',
+            'non-dyadic scalars (3.0, 1+0.5j; thorough) and fractional powers are judged with '
+            '8 eps x magnitude because the fallback axpy divides by the scalar and multiplies '
+            'back; results inside that tolerance but not bit-exact are counted in '
+            'diagnostic_within_tolerance_but_not_bit_exact',
             'shape () (space.size reports 0) and empty spaces are not enumerated (documentation '
             'asks for positive ints)',
             'left operands that are NumPy scalars/arrays dispatch through __array_ufunc__ '
             '(property C17) and are not enumerated here',
+            'unreached anchor lines: __ipow__ field-is-None / non-integer-p ValueError arms '
+            '(documented rejections), NumpyTensor.__ipow__ TypeError arm (p not convertible to '
+            'int), _blas_is_applicable dtype-mismatch and >2^31-entries arms (unreachable '
+            'within one space / machine), NotImplemented propagation inside the broadcast loop',
         ],
     }
